@@ -173,3 +173,12 @@ fn info_to_type(st_info: u8) -> u32 {
 fn info_to_bind(st_info: u8) -> u8 {
     st_info >> 4
 }
+
+/// verif hook: run the vDSO symbol lookup on a caller-supplied ELF image; the offset of the
+/// resolved function from the start of the image
+#[cfg(tiny_std_verif)]
+#[must_use]
+#[expect(clippy::missing_safety_doc)]
+pub unsafe fn verif_find_clock_gettime(image: *const u8) -> Option<usize> {
+    find_vdso_clock_get_time(image).map(|f| f as usize - image as usize)
+}
